@@ -1,5 +1,7 @@
 //! Real-time behaviour of dispatch() (C12): no clock offset, wall-clock measurements.
-//! Case line:  <timeout_ms|-1 (None, woken after 150 ms)> <timer_ms|-1 none|-2 Duration::MAX|-3 already expired> <idle kind 0..4>
+//! Case line:  <timeout_ms|-1 (None, woken after 150 ms)> <timer_ms|-1 none|-2 Duration::MAX|-3 already expired> <idle kind 0..4> [<prewake 0|1|2>]
+//!   prewake 1: LoopSignal::wakeup() is called on this thread right before the measured dispatch; 2: it was called from a callback of the
+//!   previous dispatch. Either way the wake-up is pending and the measured dispatch must not block.
 //! Output: elapsed_us fired(0/1) other_callbacks
 use calloop::channel;
 use calloop::ping::make_ping;
@@ -61,6 +63,15 @@ fn run_case(line: &str) -> String {
         }
         other.set(0);
     }
+    let prewake = ws.get(3).copied().unwrap_or(0);
+    if prewake == 2 {
+        let (p, src) = make_ping().unwrap();
+        let sig = event_loop.get_signal();
+        handle.insert_source(src, move |_, _, _| sig.wakeup()).unwrap();
+        p.ping();
+        event_loop.dispatch(Some(Duration::ZERO), &mut ()).unwrap();
+        keep.push(Box::new(p));
+    }
     // the clock starts before the timer is created: its deadline is relative to its creation
     let start = Instant::now();
     if timer != -1 {
@@ -96,6 +107,9 @@ fn run_case(line: &str) -> String {
     } else {
         None
     };
+    if prewake == 1 {
+        event_loop.get_signal().wakeup();
+    }
     let r = event_loop.dispatch(to, &mut ());
     let el = start.elapsed();
     if let Some(w) = waker {
